@@ -114,7 +114,8 @@ def obs_hget(objs, rt, path, form, rng):
     arg = '.'.join(path) if form.endswith('dotted') else (tuple(path) if form.endswith('tuple') else list(path))
     f = A['tree_getitem'] if form.startswith('getitem') else (lambda tree, item: A['tree_get'](tree, item, 'no such path'))
     out = outcome(lambda: enc(f(t, arg)))
-    return {'op': 'hget', 'form': form, 'objs': before, 'rt': rt, 'path': list(path), 'out': out, 'objs_after': enc_heap(real)}
+    return {'op': 'hget', 'form': form, 'objs': before, 'rt': rt, 'path': list(path), 'out': out, 'objs_after': enc_heap(real),
+            'path_after': path_after(arg, path)}
 
 
 def obs_hupdate(objs, rt, ru, ign, form, rng):
@@ -422,6 +423,11 @@ def obs_flatten(t_abs, rng):
 GET_FORMS = ('getitem_dotted', 'getitem_list', 'getitem_tuple', 'get_dotted', 'get_list')
 
 
+def path_after(arg, path):
+    """the path object handed to the call, encoded again afterwards (a string cannot change: it is logged as the path it spelled)"""
+    return list(path) if isinstance(arg, str) else [str(k) for k in arg]
+
+
 def obs_get(t_abs, path, form, rng):
     A = api()
     t = build(t_abs, rng)
@@ -429,7 +435,7 @@ def obs_get(t_abs, path, form, rng):
     arg = '.'.join(path) if form.endswith('dotted') else (tuple(path) if form.endswith('tuple') else list(path))
     f = A['tree_getitem'] if form.startswith('getitem') else (lambda tree, item: A['tree_get'](tree, item, 'no such path'))
     out = outcome(lambda: enc(f(t, arg)))
-    return {'op': 'get', 'form': form, 't': before, 'path': list(path), 'out': out, 'after': enc(t)}
+    return {'op': 'get', 'form': form, 't': before, 'path': list(path), 'out': out, 'after': enc(t), 'path_after': path_after(arg, path)}
 
 
 def obs_update(t_abs, u_abs, ign, form, rng):
@@ -456,7 +462,8 @@ def obs_setitem(t_abs, path, leaf, ign, form, rng):
     key = '.'.join(path) if form == 'dotted' else (tuple(path) if form == 'tuple' else list(path))
     ignore = [untag(x) for x in ign]
     r = outcome(lambda: tag(A['tree_setitem'](t, key, untag(leaf), ignore=ignore)))
-    o = {'op': 'setitem', 'form': form, 't': before, 'path': list(path), 'leaf': leaf, 'ign': ign, 't_after': enc(t)}
+    o = {'op': 'setitem', 'form': form, 't': before, 'path': list(path), 'leaf': leaf, 'ign': ign, 't_after': enc(t),
+         'path_after': path_after(key, path)}
     if r != ['n', 0]:
         o['t_after'] = r
     return o
@@ -478,16 +485,21 @@ def obs_to_table(t_abs, pat, form, rng):
 
 
 def _table_of(rows, form):
+    """the spellings of the table argument: a list of row dicts, a dictable of rows, ONE row as a dict"""
     A = api()
     rr = real_rows(rows)
-    return A['dictable'](rr) if form == 'rows_dictable' else rr
+    return A['dictable'](rr) if form == 'rows_dictable' else (rr[0] if form == 'row_dict' else rr)
+
+
+def _rows_now(table):
+    return enc_rows([table] if isinstance(table, dict) else list(table))
 
 
 def obs_from_table(rows, pat, form):
     A = api()
     table = _table_of(rows, form)
     out = outcome(lambda: enc(A['table_to_tree'](None, patstr(pat), table)))
-    return {'op': 'from_table', 'form': form, 'rows': rows, 'pat': pat, 'out': out, 'rows_after': enc_rows(list(table))}
+    return {'op': 'from_table', 'form': form, 'rows': rows, 'pat': pat, 'out': out, 'rows_after': _rows_now(table)}
 
 
 def obs_round_tree(t_abs, pat, rng):
@@ -544,7 +556,7 @@ def s2c_single(ctx, log, cases):
                 form = 'getitem_tuple'
             for f in (form, 'getitem_list'):
                 o = obs_get(t, p, f, ctx.rng)
-                log.s2c(o, o['out'] == v and o['after'] == t)
+                log.s2c(o, o['out'] == v and o['after'] == t and o['path_after'] == list(p))
         if len(c['items']) >= 2 and any(len(p) >= 2 for p, _ in c['items']):
             ctx.note(('flatten', json.dumps(t, sort_keys=True)))
         ctx.traces += 1
@@ -566,7 +578,7 @@ def s2c_merge(ctx, log, cases):
             if form == 'dotted' and not sg['spellable']:
                 form = 'tuple'
             o = obs_setitem(t, sg['path'], sg['leaf'], c['ign'], form, ctx.rng)
-            log.s2c(o, o['t_after'] == want)
+            log.s2c(o, o['t_after'] == want and o['path_after'] == list(sg['path']))
         if want != t and want != u:
             ctx.note(('merge', json.dumps([t, u, c['ign']], sort_keys=True)))
         ctx.traces += 1
@@ -589,7 +601,7 @@ def s2c_heap(ctx, log, cases):
             log.s2c(o, ok)
             for k, (p, v) in enumerate(c['items']):
                 o = obs_hget(objs, c['rt'], p, GET_FORMS[(n + k) % len(GET_FORMS)], ctx.rng)
-                log.s2c(o, o['out'] == v and o['objs_after'] == objs)
+                log.s2c(o, o['out'] == v and o['objs_after'] == objs and o['path_after'] == list(p))
         else:
             want = norm(c['out'])
             for form in ['tree_update'] + (['Dict_add'] if not c['ign'] else []):
@@ -641,8 +653,8 @@ def s2c_table(ctx, log, cases):
         if len(pat) >= 2:
             exact = [norm_row(r) for r in c['exact']]
             back = norm(c['back'])
-            for form in ('rows_list', 'rows_dictable'):
-                if exact or form == 'rows_list':
+            for form in ('rows_list', 'rows_dictable', 'row_dict'):
+                if (exact or form == 'rows_list') and (form != 'row_dict' or len(exact) == 1):
                     o = obs_from_table(exact, pat, form)
                     log.s2c(o, o['out'] == back and o['rows_after'] == exact)
                     o = obs_round_rows(exact, pat, form)
@@ -922,7 +934,7 @@ def c2s(ctx, log, n):
                     key = tuple(r[name][1] if k == 'var' else name for k, name in pat[:-1])
                     if key not in seen:
                         seen.add(key); rows.append(r)
-                form = rng.choice(['rows_list', 'rows_dictable']) if rows else 'rows_list'
+                form = rng.choice(['rows_list', 'rows_dictable'] + (['row_dict', 'row_dict'] if len(rows) == 1 else [])) if rows else 'rows_list'
                 log.c2s(obs_from_table(rows, pat, form))
                 log.c2s(obs_round_rows(rows, pat, form))
         # operands with aliasing: one heap, t = object 1, u = any object (t itself, a branch of t, a tree sharing branches with t)
@@ -988,8 +1000,16 @@ def run(ctx):
                 'Histories: MC_TreeHist enumerates call ; edit by the caller ; call on the SAME objects (tree_update / Dict + dict / '
                 'tree_items..), each call compared with the law on what the operands hold at that moment.  C2S: random heaps (<= 6 objects) '
                 'and random histories (3-6 steps) on them, judged by Trace_Tree (hflatten/hget/hupdate/hto_table/hhist).  '
+                'Sessions: MC_TreeSess enumerates what a caller who KEEPS its objects does: a heap of dicts (shared, inline and empty ones), one path '
+                'object of each kind (list / tuple / dotted string) spelling the same path, table objects (ONE row as a dict / list of dicts / dictable, '
+                'leaves 1, [], [1], [1, None]); two steps (thorough: wider worlds, simulated 6-step sessions) out of tree_getitem / tree_get / tree_setitem / '
+                'tree_update / Dict + dict / tree_items.. + items_to_tree (items as tuples and as lists) / tree_to_table / table_to_tree and the '
+                'caller\'s own writes (d[k] = v, path[:] = keys, row[var] = v); the result of a merge / table_to_tree joins the heap and is edited in '
+                'place by the next step.  After EVERY step all the caller\'s objects are encoded again (dicts by identity at every depth, path and '
+                'table objects by value) and compared with == against the state TLC printed; C2S: random sessions of 3-7 steps judged by Trace_Tree (sess).  '
+                'Single-call lookups / tree_setitem also log the path object after the call; table_to_tree is also replayed with ONE row as a dict.  '
                 'Non-trivial = merge whose result is neither t nor u; flatten of a tree with >= 2 items and a nested path; '
-                'pattern with at least one row; heap in which some object hangs in two places; every history.  Distinct by abstract input.')
+                'pattern with at least one row; heap in which some object hangs in two places; every history; every session.  Distinct by abstract input.')
     ctx.mc('MC_Tree', 'MC_Tree_quick.cfg' if ctx.quick else 'MC_Tree_thorough.cfg')
     # the non-destruction clause on a heap model with aliasing: the code's copy.copy of the root is refuted by TLC
     # (design-level counterpart of the violation the replay finds), copying every branch (the repair) is proved
@@ -1002,6 +1022,7 @@ def run(ctx):
     ctx.extra['mechanism_models'] = ('MC_TreeHeap (operands = DAGs of dict objects, u may be t / a branch of t / share branches with t): '
                                      'copy.copy(root) + in-place insertion violates OperandsIntact and a walk that skips objects it has seen '
                                      'violates ResultIsMerge (thorough) (expected, must-fail runs); copying every branch + walking the unfolding satisfies both.  '
+                                     'MC_TreeSess (thorough): tree_getitem that consumes a list path with pop(0) violates PoolsUntouched, tree_update that returns `tree` itself for an update without items violates ResultsIndependent (a later write to the result reaches the operand), table_to_tree that reads one dict as a dict of columns violates CallsAreLaw (must-fail runs; the code as it is satisfies all three).  '
                                      'MC_Tree/EAFPLookupIsMerge (thorough): _tree_setitem with one dictattr lookup res[key] resolves a missing '
                                      'dotted key as a path and is refuted (must-fail run); MC_TreeHist/CallsAreMerges (thorough): a memo of the last flattened update keyed on object identity is refuted over histories call ; edit ; call')
     # sessions: the caller's dicts, path objects and table objects outlive the calls (law against the code's loops, and the
@@ -1038,10 +1059,15 @@ def run(ctx):
         'tree_setitem (in place by design) is not replayed on operands with aliasing - the statement does not say what it does to a shared branch',
         'histories: between two calls the caller writes obj[key] = leaf or obj[key] = another dict of the heap; calls are tree_update / Dict + dict / tree_items+keys+values+items_to_tree',
         'branches are dict, Dict or dictattr (the default `types`); nested branches are non-empty, the root may be {}',
+        'sessions: a result (tree_update / Dict + dict / table_to_tree(None, ..)) must be a tree of its own at every depth - no dict of a result is a dict the caller '
+        'already had - also when nothing was merged; list LEAVES are shared between operand and result (the code copies branches, not leaves; the statement does not say) '
+        'and are never edited in place; tree_setitem is replayed with a caller-owned path object on any dict of the heap as long as the walk does not pass through a '
+        'reference to another of the caller\'s dicts; a session starts with a public call; a table given as ONE dict is one row (never a dict of columns)',
         'patterns have distinct wildcard names; rows handed to table_to_tree have string values at key positions and unique paths',
         'a pattern shorter than the tree matches the KEYS of the branch it ends on (named deviation MatchesBranchKey, the documented behaviour)',
         'small scope: MC/S2C trees have depth <= 2 over 2 keys (plus 48 sampled depth-3 trees, plus 3-key trees for flatten, plus 63 (thorough 215) trees to depth 3 over dotted keys and 15 over ""/"keys"); '
-        'S2C heaps have <= 3 (thorough 4) objects over 2 keys, S2C histories 2 objects and 3 (thorough 4) steps; C2S trees reach depth 5, C2S heaps 6 objects',
+        'S2C heaps have <= 3 (thorough 4) objects over 2 keys, S2C histories 2 objects and 3 (thorough 4) steps; C2S trees reach depth 5, C2S heaps 6 objects; '
+        'S2C sessions: 12 worlds (thorough ~150), 2 steps (thorough also simulated sessions of 6 steps), C2S sessions 3-7 steps on heaps of <= 7 objects',
     ]
 
 
